@@ -71,13 +71,17 @@ _memo = {}
 # the code) is executed against the real crates; only an input that reproduces is reported.
 PROBES = [
     (re.compile(r"^serdecap::"), "cbor-bytes", ["9b8000000000000000", "9b0000010000000000", "9a7fffffff"]),
-    (re.compile(r"^rpid::.*#(label-boundary|web|android)"), "rpid-web",
-     ["https://evilexample.com|example.com|0", "https://evillocalhost|localhost|1", "https://aexample.co.uk|example.co.uk|0",
+    (re.compile(r"^rpid::.*#(label-boundary|web|android|dns-host)"), "rpid-web",
+     ["@rpid-android:192.168.0.1|-", "@rpid-android:192.168.0.1|0.1", "@rpid-android:app.co.uk:443|co.uk:443", "@rpid-android:user@co.uk|-",
+      "@rpid-android:app.example.com/|example.com/", "@rpid-android:app.example.com|example.com", "@rpid-android:evilexample.com|example.com",
+      "https://evilexample.com|example.com|0", "https://evillocalhost|localhost|1", "https://aexample.co.uk|example.co.uk|0",
       "https://example.com.evil.org|example.com|0", "https://xexample.com:8443/path|example.com|0"]),
     (re.compile(r"^rpid::.*(registrable|accepted|valid|safety|ascii-form|ascii-input)"), "rpid-web",
      ["https://foo.xn--55qx5d.cn|xn--55qx5d.cn|0", "https://a.co.uk|co.uk|0", "https://com|-|0", "https://a.xn--p1ai|xn--p1ai|0",
       "http://www.example.com|example.com|0", "https://localhost|-|0", "http://localhost|localhost|0",
-      "http://sub.localhost:8080|localhost|1", "https://sub.localhost|localhost|1", "http://localhost:8080|localhost|1"]),
+      "http://sub.localhost:8080|localhost|1", "https://sub.localhost|localhost|1", "http://localhost:8080|localhost|1",
+      "@rpid-android:app.co.uk|co.uk", "@rpid-android:app.CO.UK|CO.UK", "@rpid-android:CO.UK|-", "@rpid-android:app.Com.Au|Com.Au",
+      "@rpid-android:app.XN--55QX5D.CN|XN--55QX5D.CN", "@rpid-android:app.example.com|example.com", "@rpid-android:aexample.com|example.com"]),
     (re.compile(r"^rpid::.*(effective-id|localhost)"), "rpid-web",
      ["https://www.example.com|example.com|0", "https://localhost|-|0", "https://localhost|localhost|0", "https://sub.localhost|localhost|1"]),
     (re.compile(r"^hid::.*(safety|table-wf|rest-bound|init-rest-bound|wf-after|err-keeps)"), "hid-packets",
@@ -148,7 +152,11 @@ def probe(o, pid=None):
     for rx, entry, args in PROBES:
         if rx.search(o["id"]):
             tried = []
+            entry0 = entry
             for a in args:
+                entry = entry0
+                if a.startswith("@"):   # "@<entry>:<arg>": this input goes to another entry of the replay crate
+                    entry, a = a[1:].split(":", 1)
                 rep = run_replay(entry, a)
                 tried.append({"arg": a[:200], "result": rep})
                 if rep.get("violates"):
